@@ -16,6 +16,8 @@
 
 #include <algorithm>
 #include <sstream>
+#include <tbox/http/server/request_parser.h>
+#include <tbox/http/request.h>
 #include <string>
 #include <vector>
 
@@ -306,6 +308,29 @@ void check_delivery(const char *name, const Delivery &d, const std::vector<Truth
   if (close_idx < 0 && d.server_eof) sim::violation("C12/connection-closed-unexpectedly", sim::fmt("%s delivery: the server closed a persistent connection", name));
 }
 
+// the request parser on its own, fed like the server feeds it: it never claims more than it was given, and a well-formed
+// stream gives the same requests however it is cut
+std::vector<std::string> direct_parse(const std::string &stream, const std::vector<long> &segs, bool &failed) {
+  std::vector<std::string> out; failed = false;
+  server::RequestParser parser;
+  std::string buf; size_t off = 0, si = 0; int guard = 0;
+  while ((off < stream.size() || !buf.empty()) && guard++ < 200000) {
+    if (off < stream.size()) { size_t n = segs.empty() ? stream.size() - off : std::min<size_t>(stream.size() - off, (size_t)std::max(1L, segs[si++ % segs.size()])); buf.append(stream, off, n); off += n; }
+    bool progressed = false;
+    while (!buf.empty()) {
+      size_t r = parser.parse(buf.data(), buf.size());
+      if (r > buf.size()) { sim::violation("C12/parser-consumed-more-than-given", sim::fmt("RequestParser::parse() was given %zu bytes and reports %zu consumed", buf.size(), r)); failed = true; return out; }
+      buf.erase(0, r);
+      if (r) progressed = true;
+      if (parser.state() == server::RequestParser::State::kFinishedAll) { Request *q = parser.getRequest(); if (q) { out.push_back(q->toString()); delete q; } progressed = true; }
+      else if (parser.state() == server::RequestParser::State::kFail) { failed = true; return out; }
+      else break;
+    }
+    if (off >= stream.size() && !progressed) break;
+  }
+  return out;
+}
+
 void execute(const sim::Plan &plan) {
   sim::start(plan);
   sim::name_thread("loop");
@@ -323,6 +348,18 @@ void execute(const sim::Plan &plan) {
       else if (op.kind == "junk") { sim::Rng jr((uint64_t)op.arg(1) + 77); long n = std::max(1L, std::min(2000L, op.arg(0))); for (long i = 0; i < n; ++i) stream.push_back((char)jr.below(256)); }
       else if (op.kind == "cut") cut = std::max(0L, op.arg(0));
     }
+  }
+  {
+    std::vector<long> segs; for (const sim::Op &op : plan.ops) if (op.kind == "seg") segs.push_back(std::max(1L, op.arg(0)));
+    std::string st = cut >= 0 ? stream.substr(0, std::min<size_t>(stream.size(), (size_t)cut)) : stream;
+    bool f0 = false, f1 = false;
+    std::vector<std::string> a = direct_parse(st, std::vector<long>(), f0), b = direct_parse(st, segs, f1);
+    if (!hostile && sim::violation_count() == 0) {
+      if (f0 || f1) sim::violation("C12/request-not-delivered", sim::fmt("RequestParser on its own: a well-formed stream made the parser fail (%s)", f0 ? "unsegmented" : "segmented"));
+      else if (a != b) { size_t i = 0; while (i < a.size() && i < b.size() && a[i] == b[i]) ++i; sim::violation("C12/segmentation-changes-requests", sim::fmt("RequestParser on its own: the unsegmented stream yields %zu requests, the segmented one %zu; first difference at request #%zu", a.size(), b.size(), i)); }
+      else if (a.size() != truth.size()) sim::violation("C12/request-not-delivered", sim::fmt("RequestParser on its own: %zu well-formed requests were sent, %zu were parsed", truth.size(), a.size()));
+    }
+    sim::probe("direct_parser_requests", (long)a.size());
   }
   Delivery whole = deliver(plan, stream, truth, false, cut);
   size_t v0 = sim::violation_count();
